@@ -8,11 +8,15 @@ Driver ops of the connection / client / STOMP receivers (C05, FV.Model.Receivers
                             they do not reach the loop), then one well-formed body
   prp <method> <reply>      FStandardClient.processReply (binary protocol, result = {0: string})
 
+  htc <c|o> <limit> <method> <status> <body> <decoded|!>
+                            FStandardClient.Call / Oneway over fHTTPTransport (the model sees status + decoded)
+
 `chunk` is how the harness cuts the stream into reads; the model does not depend on it.
 -/
 import Driver.Util
 import FV.Model.Receivers2
 import FV.Model.Receivers3
+import FV.Model.Receivers4
 
 namespace Driver
 open FV FV.Recv2
@@ -20,6 +24,16 @@ open FV FV.Recv2
 def causeName : Option Err → String
   | none => "nil"
   | some e => "err:" ++ errName e
+
+def showReplyOutcome (o : Recv3.ReplyOutcome) : String :=
+  let st := match o.stage with
+    | .hdr e => "hdr:" ++ errName e
+    | .msg => "msg"
+    | .wrongMethod => "wrong-method"
+    | .exception => "exception"
+    | .badType => "bad-type"
+    | .reply => "reply"
+  s!"stage={st} hdrs={pairsOf o.added}"
 
 def stepReceivers2 (op : String) (args : List String) : Option String :=
   match op, args with
@@ -46,15 +60,21 @@ def stepReceivers2 (op : String) (args : List String) : Option String :=
   | "prp", [m, x] => do
     let m ← unhex m
     let b ← unhex x
-    pure (showRes (fun o =>
-      let st := match o.stage with
-        | .hdr e => "hdr:" ++ errName e
-        | .msg => "msg"
-        | .wrongMethod => "wrong-method"
-        | .exception => "exception"
-        | .badType => "bad-type"
-        | .reply => "reply"
-      s!"stage={st} hdrs={pairsOf o.added}") (Recv3.processReply m b))
+    pure (showRes showReplyOutcome (Recv3.processReply m b))
+  | "htc", [mode, _limit, m, st, _body, dec] => do
+    -- FStandardClient.Call / Oneway over the real HTTP transport: status, and what base64 made of the body
+    let m ← unhex m
+    let st ← st.toNat?
+    let body ← if dec == "!" then some Recv4.B64.invalid else (unhex dec).map Recv4.B64.decoded
+    if mode == "o" then
+      pure (showRes (fun o => match o with | none => "ok" | some e => "req:" ++ errName e) (Recv4.httpOneway st body))
+    else if mode == "c" then
+      pure (match Recv4.httpCall true m st body with
+        | .req e => "req:" ++ errName e
+        | .reply o => showReplyOutcome o
+        | .nilDeref => "panic:other"
+        | .panic p => "panic:" ++ panicName p)
+    else none
   | _, _ => none
 
 end Driver
